@@ -106,13 +106,17 @@ class MachineRun:
         self.tlc = vlib.tlc_corpus(fam, tier, seed, self.cdir, cfg=cfg)
         self.secs = time.time() - t0
         self.cases = []
+        self.rejected = {}
         self.real_only = []     # cases beyond the model-checking bound: no expectation, real runs only
         self.by_g = {g.id: g for g in self.grammars}
         if self.real["build_ok"]:
             exp = {(r["g"], tuple(r["inp"])): r for r in self.tlc["replays"]}
+            self.rejected = {gid: v for gid, v in self.real["front"].items() if v[0] != "code"}
             for a in self.real["outcomes"]:
                 if a.get("missing"):
-                    raise ToolError("corpus grammar %s was rejected by the compiler: %s" % (
+                    if a["g"] in self.rejected:
+                        continue
+                    raise ToolError("corpus grammar %s is missing from the runner: %s" % (
                         a["g"], self.real["front"].get(a["g"])))
                 key = (a["g"], tuple(a["inp"]))
                 e = exp.get(key)
